@@ -308,6 +308,38 @@ func EscCSS(s string, lo, hi int) bseq { return foldPieces(s, lo, hi, specPieceC
 //@     cases last == i
 //@     decreases len(s) - i
 
+// JavaScript and JSON string literals: the bytes listed in jsStringEscapes become
+// their escape sequence, and the line terminators U+2028 and U+2029 (the byte
+// triples E2 80 A8 and E2 80 A9; a lead byte is never part of another sequence,
+// so the triples are found wherever they occur) become \u2028 and \u2029: the
+// lead byte carries the escape and the two continuation bytes carry nothing.
+func specLineSep(s string, k int) bool {
+	return 0 <= k && k+2 < len(s) && s[k] == 0xE2 && s[k+1] == 0x80 && (s[k+2] == 0xA8 || s[k+2] == 0xA9)
+}
+
+func specPieceJS(s string, k int) string {
+	c := s[k]
+	if int(c) < len(jsStringEscapes) {
+		return jsStringEscapes[c]
+	}
+	if specLineSep(s, k) {
+		if s[k+2] == 0xA8 {
+			return `\u2028`
+		}
+		return `\u2029`
+	}
+	if specLineSep(s, k-1) || specLineSep(s, k-2) {
+		return "\x00"
+	}
+	return ""
+}
+
+func EscJS(s string, lo, hi int) bseq { return foldPieces(s, lo, hi, specPieceJS) }
+
+func rangeWidth() int { return 0 }
+
+//@ fold EscJS piece specPieceJS drop
+
 //@ func jsStringEscape
 //@   props C05 C13 C07
 //@   opt writerprop C13
@@ -315,9 +347,18 @@ func EscCSS(s string, lo, hi int) bseq { return foldPieces(s, lo, hi, specPieceC
 //@   ensures[C13] result != nil ==> wfailed(w) && result == werr(w)
 //@   ensures[C13] result == nil ==> !wfailed(w)
 //@   ensures[C13] wonly(w)
+//@   ensures[C07] result == nil ==> wout(w) == cat(old(wout(w)), EscJS(s, 0, len(s)))
+//@   split 0, last, len(s)
 //@   loop 0
 //@     invariant 0 <= last && last <= i && i <= len(s)
+//@     invariant !specLineSep(s, i-1) && !specLineSep(s, i-2)
 //@     invariant[C13] !wfailed(w) && wonly(w)
+//@     invariant[C07] wout(w) == cat(old(wout(w)), EscJS(s, 0, last))
+//@     invariant[C07] EscJS(s, last, i) == sub(s, last, i)
+//@     split 0, last, i+rangeWidth(); last, i, i+rangeWidth(); i, i+1, i+rangeWidth(); i+1, i+2, i+rangeWidth(); i+2, i+3, i+rangeWidth()
+//@     cases rangeWidth() == 1; rangeWidth() == 2; rangeWidth() == 3
+//@     cases c == '\u2028'; c == '\u2029'; int(c) < len(jsStringEscapes) && jsStringEscapes[c] != ""
+//@     cases last == i
 
 //@ func jsonStringEscape
 //@   props C05 C13 C07
@@ -326,6 +367,7 @@ func EscCSS(s string, lo, hi int) bseq { return foldPieces(s, lo, hi, specPieceC
 //@   ensures[C13] result != nil ==> wfailed(w) && result == werr(w)
 //@   ensures[C13] result == nil ==> !wfailed(w)
 //@   ensures[C13] wonly(w)
+//@   ensures[C07] result == nil ==> wout(w) == cat(old(wout(w)), EscJS(s, 0, len(s)))
 
 // URL paths inside attribute values: letters, digits and the path punctuation
 // below are kept, an existing well-formed %XX is kept, '&', '+' and (unquoted)
@@ -420,6 +462,216 @@ func EscQuery(s string, lo, hi int) bseq { return foldPieces(s, lo, hi, specPiec
 //@     cases last == i
 //@     decreases len(s) - i
 
+// ---------------------------------------------------------------------------
+// Decoding lemmas (C07). The escapers are proved above to write exactly the
+// fold of their piece function; the lemmas below are about the piece functions
+// alone, for every string and position: a byte that is kept is not one the
+// context's decoder treats specially, and a byte that is replaced becomes one
+// complete escape which the decoder (the spec functions specDecode*, written
+// from the cited standards for the escape forms in use) maps back to that byte
+// and which the following output cannot extend. Decoding the whole output is
+// then the original string, by induction over the fold (that last step is the
+// standard argument for uniquely decodable codes and is not machine-checked).
+// ---------------------------------------------------------------------------
+
+func specDigit(c byte) bool { return '0' <= c && c <= '9' }
+
+func specHexVal(c byte) int {
+	switch {
+	case '0' <= c && c <= '9':
+		return int(c - '0')
+	case 'a' <= c && c <= 'f':
+		return int(c-'a') + 10
+	case 'A' <= c && c <= 'F':
+		return int(c-'A') + 10
+	}
+	return -1
+}
+
+// specDecodeCharRef is the character one HTML character reference stands for
+// (https://html.spec.whatwg.org/#character-reference-state): the named
+// references lt, gt and amp and two-digit decimal references; -1 otherwise.
+func specDecodeCharRef(p string) int {
+	n := len(p)
+	if n < 4 || p[0] != '&' || p[n-1] != ';' {
+		return -1
+	}
+	if n == 4 && p[1] == 'l' && p[2] == 't' {
+		return '<'
+	}
+	if n == 4 && p[1] == 'g' && p[2] == 't' {
+		return '>'
+	}
+	if n == 5 && p[1] == 'a' && p[2] == 'm' && p[3] == 'p' {
+		return '&'
+	}
+	if n == 5 && p[1] == '#' && specDigit(p[2]) && specDigit(p[3]) {
+		return int(p[2]-'0')*10 + int(p[3]-'0')
+	}
+	return -1
+}
+
+func lemmaHTMLPieceDecodes(s string, k int) bool {
+	p := specPieceHTML(s, k)
+	if p == "" {
+		return s[k] != '&'
+	}
+	return specDecodeCharRef(p) == int(s[k])
+}
+
+//@ func lemmaHTMLPieceDecodes
+//@   props C07
+//@   requires 0 <= k && k < len(s)
+//@   ensures result
+
+func lemmaAttrPieceDecodes(s string, k int) bool {
+	p := specPieceAttrU(s, k, true)
+	if p == "" {
+		return s[k] != '&'
+	}
+	return specDecodeCharRef(p) == int(s[k])
+}
+
+//@ func lemmaAttrPieceDecodes
+//@   props C07
+//@   requires 0 <= k && k < len(s)
+//@   ensures result
+
+// specCSSDecode is the code point of the CSS escape at the start of p and the
+// number of bytes it consumes (CSS Syntax 3, 4.3.7): a backslash followed by a
+// non-hexadecimal byte stands for that byte; otherwise the hexadecimal digits
+// (the escapers emit at most two) are the code point and one following white
+// space byte is consumed with them.
+func specCSSDecode(p string) (int, int) {
+	if len(p) < 2 || p[0] != '\\' {
+		return -1, 0
+	}
+	if !specIsHexDigit(p[1]) {
+		return int(p[1]), 2
+	}
+	v, n := specHexVal(p[1]), 2
+	if n < len(p) && specIsHexDigit(p[n]) {
+		v = v*16 + specHexVal(p[n])
+		n++
+	}
+	if n < len(p) && specCSSWhitespace(p[n]) {
+		n++
+	}
+	return v, n
+}
+
+func lemmaCSSPieceDecodes(s string, k int) bool {
+	p := specPieceCSS(s, k)
+	if p == "" {
+		return s[k] != '\\'
+	}
+	v, n := specCSSDecode(p)
+	return v == int(s[k]) && n == len(p)
+}
+
+//@ func lemmaCSSPieceDecodes
+//@   props C07
+//@   requires 0 <= k && k < len(s)
+//@   ensures result
+
+// lemmaCSSSeparated: a hexadecimal escape that is not followed by the
+// separating space is followed, in the output, by a byte that is neither a
+// hexadecimal digit nor white space, so the tokenizer stops the escape there.
+func lemmaCSSSeparated(s string, k int) bool {
+	p := specPieceCSS(s, k)
+	if p == "" || s[k] == '\\' || p[len(p)-1] == ' ' {
+		return true
+	}
+	if k+1 >= len(s) {
+		return false
+	}
+	next := s[k+1]
+	if q := specPieceCSS(s, k+1); q != "" {
+		next = q[0]
+	}
+	return !specIsHexDigit(next) && !specCSSWhitespace(next)
+}
+
+//@ func lemmaCSSSeparated
+//@   props C07
+//@   requires 0 <= k && k < len(s)
+//@   ensures result
+
+// specPctDecode is the byte a percent-encoded triplet stands for (RFC 3986, 2.1).
+func specPctDecode(p string) int {
+	if len(p) != 3 || p[0] != '%' || !specIsHexDigit(p[1]) || !specIsHexDigit(p[2]) {
+		return -1
+	}
+	return specHexVal(p[1])*16 + specHexVal(p[2])
+}
+
+// In a query value '%' starts a triplet and '+' stands for a space
+// (application/x-www-form-urlencoded); neither is ever kept.
+func lemmaQueryPieceDecodes(s string, k int) bool {
+	p := specPieceQuery(s, k)
+	if p == "" {
+		return s[k] != '%' && s[k] != '+'
+	}
+	return specPctDecode(p) == int(s[k])
+}
+
+//@ func lemmaQueryPieceDecodes
+//@   props C07
+//@   requires 0 <= k && k < len(s)
+//@   ensures result
+
+// specJSDecode is the code unit one JavaScript / JSON escape sequence stands
+// for (ECMA-262 12.9.4.2 "Static Semantics: SV", RFC 8259 section 7): the
+// single-character escapes b t n f r " \ and \uXXXX; -1 otherwise.
+func specJSDecode(p string) int {
+	if len(p) < 2 || p[0] != '\\' {
+		return -1
+	}
+	if len(p) == 2 {
+		switch p[1] {
+		case 'b':
+			return 8
+		case 't':
+			return 9
+		case 'n':
+			return 10
+		case 'f':
+			return 12
+		case 'r':
+			return 13
+		case '"', '\\':
+			return int(p[1])
+		}
+		return -1
+	}
+	if len(p) == 6 && p[1] == 'u' && specIsHexDigit(p[2]) && specIsHexDigit(p[3]) && specIsHexDigit(p[4]) && specIsHexDigit(p[5]) {
+		return ((specHexVal(p[2])*16+specHexVal(p[3]))*16+specHexVal(p[4]))*16 + specHexVal(p[5])
+	}
+	return -1
+}
+
+// A kept byte is not the backslash, a quote or a line terminator; a replaced
+// byte becomes one escape that stands for it; the line separators become the
+// escape of their code point (the two continuation bytes are carried by it).
+func lemmaJSPieceDecodes(s string, k int) bool {
+	p := specPieceJS(s, k)
+	if p == "" {
+		return s[k] != '\\' && s[k] != '"' && s[k] != '\'' && s[k] != '\n' && s[k] != '\r'
+	}
+	if p == "\x00" {
+		return specLineSep(s, k-1) || specLineSep(s, k-2)
+	}
+	if s[k] == 0xE2 {
+		return specLineSep(s, k) && specJSDecode(p) == 0x2000+int(s[k+2]-0x80)
+	}
+	return specJSDecode(p) == int(s[k])
+}
+
+//@ func lemmaJSPieceDecodes
+//@   props C07
+//@   requires 0 <= k && k < len(s)
+//@   ensures result
+
 //@ func isCDATA
 //@   props C05
 //@   requires 0 <= p
@@ -460,6 +712,32 @@ func EscMDCode(s string, lo, hi int, spaces bool) bseq {
 }
 
 //@ fold EscMDCode piece specPieceMDCode
+
+// lemmaMDCodeStaysIndented (C26): whatever follows a line feed of the value in
+// the output - directly, or after the carriage return paired with it - is the
+// block's indentation, so the next line of the value is still inside the block.
+func lemmaMDCodeStaysIndented(s string, k int, spaces bool) bool {
+	if s[k] != '\n' {
+		return true
+	}
+	p := specPieceMDCode(s, k, spaces)
+	if k+1 < len(s) && s[k+1] == '\r' {
+		q := specPieceMDCode(s, k+1, spaces)
+		if spaces {
+			return p == "" && len(q) == 5 && q[0] == '\r' && q[1] == ' ' && q[2] == ' ' && q[3] == ' ' && q[4] == ' '
+		}
+		return p == "" && len(q) == 2 && q[0] == '\r' && q[1] == '\t'
+	}
+	if spaces {
+		return len(p) == 5 && p[0] == '\n' && p[1] == ' ' && p[2] == ' ' && p[3] == ' ' && p[4] == ' '
+	}
+	return len(p) == 2 && p[0] == '\n' && p[1] == '\t'
+}
+
+//@ func lemmaMDCodeStaysIndented
+//@   props C26
+//@   requires 0 <= k && k < len(s)
+//@   ensures result
 
 //@ func markdownCodeBlockEscape
 //@   props C05 C13 C26
@@ -1018,6 +1296,41 @@ func specPieceMD(s string, k int) string {
 func EscMD(s string, lo, hi int) bseq { return foldPieces(s, lo, hi, specPieceMD) }
 
 //@ fold EscMD piece specPieceMD
+
+// specMDActive: the ASCII punctuation that can open, close or continue a
+// Markdown or raw HTML construct (CommonMark 0.31: emphasis, code spans, links,
+// headings, lists, block quotes, thematic breaks, setext underlines, tables,
+// strikethrough, entities, HTML tags, and the backslash itself).
+func specMDActive(c byte) bool {
+	switch c {
+	case '\\', '`', '*', '_', '{', '}', '[', ']', '(', ')', '#', '+', '-', '=', '.', '!', '|', '>', '~', '<', '&':
+		return true
+	}
+	return false
+}
+
+// lemmaMDPieceInert (C26): a kept byte is not active punctuation and, if it is
+// a space or tab, it is a single interior one (so it can neither indent a line
+// nor form a hard break); a replaced byte is either active punctuation behind
+// a backslash (CommonMark 2.4: it then stands for itself) or U+00A0.
+func lemmaMDPieceInert(s string, k int) bool {
+	p, c := specPieceMD(s, k), s[k]
+	if p == "" {
+		if c == ' ' || c == '\t' {
+			return 0 < k && k < len(s)-1 && s[k+1] != ' ' && s[k+1] != '\t'
+		}
+		return !specMDActive(c)
+	}
+	if c == ' ' || c == '\t' {
+		return len(p) == 2 && p[0] == 0xC2 && p[1] == 0xA0
+	}
+	return specMDActive(c) && len(p) == 2 && p[0] == '\\' && p[1] == c
+}
+
+//@ func lemmaMDPieceInert
+//@   props C26
+//@   requires 0 <= k && k < len(s)
+//@   ensures result
 
 // markdownEscape: the errors "not closed HTML comment"/"not closed CDATA
 // section" are not writer errors, hence the weaker first postcondition.
